@@ -111,8 +111,8 @@ nni_list_remove(nni_list *l, void *it)
 		g_txq.head = g_txq.next;
 		g_txq.next = NULL;
 		if (g_txq.n >= 1 && g_txq.head == NULL) {
-			/* identity unknown to the model: some frame */
-			struct ws_frame *x = nondet_ptr();
+			/* identity unknown to the model: some other frame (a real object) */
+			struct ws_frame *x = malloc(sizeof(struct ws_frame));
 			__CPROVER_assume(x != NULL);
 			g_txq.head = x;
 		}
